@@ -1,12 +1,13 @@
 import BPT.Props.C04
+import BPT.Rust.CheckedSpec
 /-
   C10 — Rust checked/bulk API and constructors agree with the basic operations.
 
   `try_get`, `get_item`, `remove_item` are `get`/`remove` followed by `ok_or(KeyNotFound)`;
   `try_insert`, `try_remove`, `batch_insert`, `validate_for_operation` additionally run
-  `check_invariants_detailed`.  The wrappers themselves are modelled in the driver
-  (Driver/RustDrv.lean) and compared call by call with the implementation; the theorems
-  here give what they rest on.
+  `check_invariants_detailed`.  The wrappers are model functions (BPT/Rust/Checked.lean, a
+  transcription of the source text pinned by the tie lemmas `Tie.rust_src_*_eq`); the driver
+  runs those same functions against the implementation call by call.
 -/
 namespace BPT.Props.C10
 open BPT BPT.Rust
@@ -82,5 +83,63 @@ theorem batch_insert_eq_fold (s : RState K V) (items : List (K × V)) (hi : Inv 
 theorem validate_for_operation_ok (s : RState K V) (hs : SInv s) (hsm : Small s) :
     (view s).checkDetailed Cfg.repaired = .ok none ∧ (view s).checkInvariants Cfg.repaired = .ok true :=
   ⟨view_checkDetailed s hs hsm, view_checkInvariants s hs hsm⟩
+
+/-! ### the wrappers themselves (model: BPT/Rust/Checked.lean) -/
+
+/-- `try_insert` has exactly the effect and result of `insert` (and panics exactly when `insert` does) -/
+theorem try_insert_eq_insert (s : RState K V) (k : K) (v : V) (hs : SInv s) (hsm : Small s) :
+    (∀ s' old, insert s k v = some (s', old) → Small s' → tryInsert Cfg.repaired s k v = some (s', .ok old)) ∧
+    (insert s k v = none → tryInsert Cfg.repaired s k v = none) :=
+  ⟨fun s' old he hsm' => tryInsert_spec s s' k v old hs hsm he hsm', tryInsert_none s k v hs hsm⟩
+
+/-- `try_remove` and `remove_item` have exactly the effect of `remove`; they report KeyNotFound exactly when the key is absent
+    and otherwise return the removed value -/
+theorem try_remove_eq_remove (s : RState K V) (k : K) (hs : SInv s) (hsm : Small s) :
+    ∃ s' r, remove s k = some (s', r) ∧ r = (SMap.lookup (abs s) k).map (·.2) ∧
+      tryRemove Cfg.repaired s k = some (s', okOrKeyNotFound r) ∧ removeItem s k = some (s', okOrKeyNotFound r) ∧
+      (okOrKeyNotFound r = .error .keyNotFound ↔ SMap.lookup (abs s) k = none) ∧ abs s' = SMap.erase (abs s) k := by
+  obtain ⟨s', old, he, _, habs, hold, _⟩ := remove_spec s k hs.inv
+  exact ⟨s', old, he, hold, tryRemove_spec s s' k old hs hsm he, removeItem_spec s s' k old he,
+    hold ▸ okOr_keyNotFound_iff _ _, habs⟩
+
+/-- `try_get` / `get_item`: the stored value, or KeyNotFound exactly when the key is absent -/
+theorem try_get_eq_get (s : RState K V) (k : K) (hi : Inv s) :
+    tryGet s k = okOrKeyNotFound ((SMap.lookup (abs s) k).map (·.2)) ∧
+    (tryGet s k = .error .keyNotFound ↔ SMap.lookup (abs s) k = none) := by
+  rw [tryGet_spec s k hi]
+  exact ⟨rfl, okOr_keyNotFound_iff _ _⟩
+
+/-- `get_many`: fails iff some requested key is absent, otherwise one value per request, in request order -/
+theorem get_many_model_spec (s : RState K V) (ks : List K) (hi : Inv s) :
+    ((∃ k ∈ ks, SMap.lookup (abs s) k = none) → getManyE s ks = .error .keyNotFound) ∧
+    ((∀ k ∈ ks, SMap.lookup (abs s) k ≠ none) →
+      getManyE s ks = .ok (ks.filterMap (fun k => (SMap.lookup (abs s) k).map (·.2))) ∧
+      (ks.filterMap (fun k => (SMap.lookup (abs s) k).map (·.2))).length = ks.length) :=
+  getManyE_spec s hi ks
+
+/-- `batch_insert` = the same inserts one by one, results in order; never an error on an API-built map -/
+theorem batch_insert_eq_inserts (s : RState K V) (items : List (K × V)) (hs : SInv s) (hsm : SmallRun s items) :
+    batchInsert Cfg.repaired s items = (insertAll s items).map fun r => (r.1, .ok r.2) :=
+  batchInsert_spec s items hs hsm
+
+/-- on maps built through the map-level API the checked calls never report an integrity error -/
+theorem never_integrity_error (s : RState K V) (hs : SInv s) (hsm : Small s) :
+    validateForOperation Cfg.repaired s = .ok () ∧ checkedEntry Cfg.repaired (view s) = none := by
+  refine ⟨validateForOperation_ok s hs hsm, ?_⟩
+  have := validOk_of_sinv s hs hsm
+  unfold validOk at this
+  cases h : checkedEntry Cfg.repaired (view s) with
+  | none => rfl
+  | some e => rw [h] at this; cases this
+
+/-- the hypotheses of `batch_insert_eq_inserts` (and of the other wrapper theorems) are met by a concrete state and batch -/
+example : SInv (freshState 4 : RState Int Nat) ∧ SmallRun (freshState 4 : RState Int Nat) [(1, 10)] := by
+  refine ⟨sinv_fresh 4 (by decide), by unfold Small; decide, ?_⟩
+  intro s' old he
+  have hd : (match insert (freshState 4 : RState Int Nat) 1 10 with
+      | some p => decide (p.1.al.leaf.len ≤ nullId ∧ p.1.al.branch.len ≤ nullId)
+      | none => true) = true := by decide
+  rw [he] at hd
+  simpa [SmallRun, Small] using hd
 
 end BPT.Props.C10
